@@ -11,6 +11,8 @@ pub struct Instant { _t: u64 }
 impl Instant {
     pub uninterp spec fn ticks(&self) -> nat;
     pub open spec fn is_zero(&self) -> bool { self.ticks() == 0 }
+    // is_now(i): i was returned by an Instant::now() call
+    pub uninterp spec fn is_now(&self) -> bool;
 
     pub exec const ZERO: Instant
         ensures Self::ZERO.ticks() == 0,
@@ -20,7 +22,7 @@ impl Instant {
     // distinguishable from "not finished" by fastrace itself) -- ASSUMED.
     #[verifier::external_body]
     pub fn now() -> (r: Instant)
-        ensures r.ticks() > 0,
+        ensures r.ticks() > 0, r.is_now(),
     { unimplemented!() }
 }
 
